@@ -1,7 +1,141 @@
 package main
 
-import "verifharness/internal/vgen"
+import (
+	"fmt"
+	"strings"
+	"time"
 
-// walkCases adds the router-walk cases (SegIDs used by real border routers hop
-// by hop). Filled in once the router hook (router/export_verif.go) is available.
-func walkCases(run *vgen.Run, rng *vgen.Rand) {}
+	"verifharness/internal/netgen"
+	"verifharness/internal/rtgen"
+	"verifharness/internal/vgen"
+)
+
+// walkCases adds the router-walk cases: paths of the real combinator over
+// beaconed segments (real extender) are walked hop by hop through real border
+// routers (netgen: 1-3 routers per AS, sibling links); for every segment slice
+// of every delivered walk the SegIDs the routers verified the hop fields with
+// are compared with SegID.walk and with the construction-time values
+// (SegID.walk_ok) computed from the beaconed segment the slice was cut from.
+//
+// The SegID a router used for a hop field is read off the packets: in
+// construction direction the value the info field carried on arrival (the router
+// folds the MAC prefix in only afterwards, at egress), against construction
+// direction the value the info field carries when the router is done (it folds
+// the prefix in before verifying).
+func walkCases(run *vgen.Run, rng *vgen.Rand) {
+	nWorlds := run.Count(4, 150)
+	perWorld := 8
+	if run.Tier == "thorough" {
+		perWorld = 30
+	}
+	now := time.Now().Unix()
+	for wi := 0; wi < nWorlds; wi++ {
+		r := rng.Fork(uint64(9_000_000 + wi))
+		w := netgen.NewWorld(r, wi, now)
+		count := 0
+		for _, pr := range w.Pairs(r) {
+			if count >= perWorld {
+				break
+			}
+			ps, err := w.Paths(r, pr[0], pr[1], 2)
+			if err != nil {
+				run.Violate(-1, "path construction failed: "+err.Error(), map[string]any{"topology": w.Net.Describe()})
+				continue
+			}
+			for _, p := range ps {
+				if count >= perWorld {
+					break
+				}
+				if _, expired, borderline := p.ExpiryMargin(now); expired || borderline {
+					continue
+				}
+				p.SetHosts(r, w.Net)
+				s, err := w.Send(p, nil)
+				if err != nil || !s.Walk.Delivered() {
+					run.Tally("walk:not-delivered")
+					continue
+				}
+				count++
+				emitWalk(run, w, p, s)
+			}
+		}
+	}
+}
+
+type visit struct {
+	inExt, egExt bool
+	used         uint16
+}
+
+func emitWalk(run *vgen.Run, w *netgen.World, p *netgen.Path, s *netgen.Sent) {
+	nh := p.NumHops()
+	visits := make([][]visit, nh)
+	segOf := func(k int) int { return s.Rec.InfIndexForHF(k) }
+	steps := s.Walk.Steps
+	for si, st := range steps {
+		if st.In == nil || st.Out == nil {
+			return
+		}
+		k := int(st.In.CurrHF)
+		delivered := si == len(steps)-1
+		xover := (st.Ext && int(st.Out.CurrHF) == k+2) || (!st.Ext && !delivered && int(st.Out.CurrHF) == k+1)
+		used := func(h int) uint16 {
+			j := segOf(h)
+			if st.In.Infos[j].ConsDir {
+				return st.In.Infos[j].SegID
+			}
+			return st.Out.Infos[j].SegID
+		}
+		if k >= nh {
+			return
+		}
+		visits[k] = append(visits[k], visit{inExt: st.Ing.Kind == rtgen.IngExt, egExt: st.Ext && !xover, used: used(k)})
+		if xover && k+1 < nh {
+			visits[k+1] = append(visits[k+1], visit{inExt: false, egExt: st.Ext, used: used(k + 1)})
+		}
+	}
+	k := 0
+	for j, sl := range p.Slices {
+		var hs, impl []string
+		multi := false
+		for _, h := range sl.Hops {
+			var vs, us []string
+			for _, v := range visits[k] {
+				vs = append(vs, vgen.App("SegID.Build_visit", vgen.B(v.inExt), vgen.B(v.egExt)))
+				us = append(us, vgen.N(uint64(v.used)))
+			}
+			if len(visits[k]) > 1 {
+				multi = true
+			}
+			hs = append(hs, vgen.App("SegID.Build_hopv", fmt.Sprintf("%d%%nat", h.Idx), vgen.B(h.Peer),
+				vgen.N(uint64(h.Sigma)), vgen.List(vs)))
+			impl = append(impl, fmt.Sprintf("(%d%%nat, %s, %s)", h.Idx, vgen.B(h.Peer), vgen.List(us)))
+			k++
+		}
+		sg := make([]uint64, len(sl.Sigmas))
+		for i, x := range sl.Sigmas {
+			sg[i] = uint64(x)
+		}
+		term := vgen.App("SegID.CWalk", vgen.B(sl.ConsDir), vgen.N(uint64(sl.B0)), vgen.NList(sg),
+			vgen.N(uint64(sl.SegID0)), vgen.List(hs), vgen.List(impl))
+		kind := "full"
+		first, last := sl.Hops[0], sl.Hops[len(sl.Hops)-1]
+		switch {
+		case sl.Peer:
+			kind = "peering"
+		case len(sl.Hops) < len(sl.Sigmas):
+			kind = "shortcut"
+		}
+		_, _ = first, last
+		run.Tally(fmt.Sprintf("walk:consdir=%v,%s", sl.ConsDir, kind))
+		if multi {
+			run.Tally("walk:several-routers-in-an-AS")
+		}
+		desc := map[string]any{
+			"topology": w.Net.Describe(), "path": p.Kind(), "slice": j, "consdir": sl.ConsDir, "kind": kind,
+			"segment_len": len(sl.Sigmas), "hops": len(sl.Hops),
+			"crossed": strings.Join(s.Walk.Crossed(), " "),
+		}
+		run.Add("walk", term, fmt.Sprintf("%x|%d", s.Raw, j), len(sl.Hops) >= 2 || sl.Peer, desc)
+	}
+}
